@@ -46,7 +46,8 @@ def run(ck):
         docs = [gen.gen_doc(rng, tree) for _ in range(4)] + flat_docs(rng, tree)
         cases.append({"k": "rep", "id": ck.new_id(), "rule": rule_text(det), "docs": [D(d) for d in docs], "_docs": docs})
     # boundary values under every numeric predicate
-    for pat in [">5", ">=5", "<5", "=5", 5, ">=9223372036854775807", "<0", "=0"]:
+    for pat in [">5", ">=5", "<5", "=5", 5, ">=9223372036854775807", "<0", "=0", "=9223372036854775807", ">9223372036854775807",
+                "<=9223372036854775807", "<9223372036854775807", 9223372036854775807, ">9223372036854775806", "<=9223372036854775806"]:
         for key in ["f", "int(f)", "flt(f)", "str(f)"]:
             v = pat
             if key.startswith("flt") and isinstance(pat, str):
